@@ -131,6 +131,23 @@ def _api():
         e = s + (np.asarray(table.stop) % 700) + 1
         return dt.Interval(["chr1"] * len(s), s, e)
 
+    def intervals_one_strand_overhang(b, table, fmt):
+        # stranded intervals, all on one strand, some reaching beyond the chromosome (2000) / starting below 0
+        iv = intervals_overhang(b, table, fmt)
+        if iv is None:
+            return None
+        import bionumpy.datatypes as dt
+        minus = int(np.asarray(table.start).sum()) % 2 == 0
+        return dt.StrandedInterval(iv.chromosome, iv.start, iv.stop, ["-" if minus else "+"] * len(iv))
+
+    def locations_numeric(b, table, fmt):
+        # locations on chromosomes named by bare numbers (Genome.get_locations(..., has_numeric_chromosomes=True))
+        if "start" not in fmt.field_names() and "position" not in fmt.field_names():
+            return None
+        import bionumpy.datatypes as dt
+        pos = np.asarray(table.start if "start" in fmt.field_names() else table.position) % 1000
+        return dt.LocationEntry([str(1 + int(p) % 2) for p in pos], pos)
+
     def quality_text(b, table, fmt):
         if fmt.layout != "fastq":
             return None
@@ -221,6 +238,21 @@ def _api():
     def f_g_extended_clip(b, x):
         return _gi(b, x).extended_to_size(30).clip().get_data()
 
+    def f_extend_to_size_fn(b, x):
+        from bionumpy.arithmetics.intervals import extend_to_size
+        return extend_to_size(x, 30, 2000)
+
+    def f_g_extended_stranded(b, x):
+        return b.Genome.from_dict({"chr1": 2000}).get_intervals(x, stranded=True).extended_to_size(30).get_data()
+
+    def f_g_locations_numeric(b, x):
+        g = b.Genome.from_dict({"chr1": 2000, "chr2": 2000})
+        return g.get_locations(x, has_numeric_chromosomes=True).get_data()
+
+    def f_g_locations_windows(b, x):
+        g = b.Genome.from_dict({"chr1": 2000, "chr2": 2000})
+        return g.get_locations(x, has_numeric_chromosomes=True).get_windows(flank=5).get_data()
+
     def f_g_sorted(b, x):
         return _gi(b, x).sorted().get_data()
 
@@ -283,6 +315,10 @@ def _api():
             ("genome_get_mask", intervals, f_g_mask), ("genome_get_pileup", intervals, f_g_pileup),
             ("genome_merged", intervals, f_g_merged), ("genome_clip", intervals, f_g_clip),
             ("genome_extended_to_size", intervals, f_g_extended), ("genome_sorted", intervals, f_g_sorted),
+            ("extend_to_size_one_strand_overhang", intervals_one_strand_overhang, f_extend_to_size_fn),
+            ("genome_extended_stranded_overhang", intervals_one_strand_overhang, f_g_extended_stranded),
+            ("genome_get_locations_numeric", locations_numeric, f_g_locations_numeric),
+            ("genome_locations_windows_numeric", locations_numeric, f_g_locations_windows),
             ("genome_clip_overhang", intervals_overhang, f_g_clip), ("genome_extended_clip_overhang", intervals_overhang, f_g_extended_clip),
             ("table_sort_by", intervals, f_t_sort_by), ("table_concatenate", intervals, f_t_concat),
             ("table_replace", intervals, f_t_replace), ("table_reverse", intervals, f_t_reverse),
